@@ -41,6 +41,18 @@ Ltac split_and :=
          | H : _ && _ = true |- _ => apply andb_true_iff in H; destruct H
          end.
 
+Lemma libopen_case (ex : bool) (cv : option bool) (b P1 P2 : bool) :
+  (forall x, cv = Some x -> b = x) ->
+  match oand (Some ex) (onot cv) with Some true => P1 | Some false => P2 | None => P1 && P2 end = true ->
+  (if ex && negb b then P1 else P2) = true.
+Proof.
+  intros Hb H. destruct cv as [x|].
+  - rewrite (Hb x eq_refl). destruct ex, x; cbn in *; exact H.
+  - destruct ex; cbn in *.
+    + apply andb_true_iff in H. destruct H. destruct (negb b); assumption.
+    + exact H.
+Qed.
+
 Section Sound.
   Variable n0 : node.
   Variable E : env.
@@ -153,19 +165,12 @@ Section Sound.
     - fold m. destruct m eqn:Hm; try (exact (a_by_mode_sound _ a s k HR H)).
       pose proof (R_exists _ _ _ HR) as Hex. fold ex0 in Hex.
       pose proof (aeval_sound E (s_node s) clobber) as Hc. fold m f in Hc. rewrite Hm, Hex in Hc.
-      destruct (aeval MW f (a_exists ex0 (a_node a)) clobber) as [cv|] eqn:Hcv.
-      + rewrite (Hc _ eq_refl). rewrite Hex.
-        destruct (a_exists ex0 (a_node a)) eqn:Hx; destruct cv; cbn in H |- *.
-        * rewrite <- Hx in H. exact (a_trunc_sound a s k HR H).
-        * exists a. split; assumption.
-        * rewrite <- Hx in H. exact (a_trunc_sound a s k HR H).
-        * rewrite <- Hx in H. exact (a_trunc_sound a s k HR H).
-      + destruct (a_exists ex0 (a_node a)) eqn:Hx; cbn in H.
-        * split_and. rewrite Hex.
-          destruct (negb (eval_cond E (s_node s) clobber)); cbn.
-          -- exists a. split; assumption.
-          -- rewrite <- Hx in *. exact (a_trunc_sound a s k HR H).
-        * rewrite Hex. cbn. rewrite <- Hx in H. exact (a_trunc_sound a s k HR H).
+      rewrite Hex.
+      pose proof (libopen_case (a_exists ex0 (a_node a)) (aeval MW f (a_exists ex0 (a_node a)) clobber)
+                    (eval_cond E (s_node s) clobber) (k Error a) (a_trunc (a_exists ex0 (a_node a)) a k) Hc H) as Hl.
+      destruct (a_exists ex0 (a_node a) && negb (eval_cond E (s_node s) clobber)).
+      + exists a. split; assumption.
+      + exact (a_trunc_sound a s k HR Hl).
     - exact (a_remove_file_sound a s k HR H).
     - exact (a_remove_dir_sound a s k HR H).
     - exists (with_h a (HWrite (WDefer k0))). split; [|assumption]. apply R_same_node, HR.
@@ -206,7 +211,7 @@ Proof.
   intros Hc unk n Hn E.
   assert (Hex : exists_ n = true) by (destruct n; [reflexivity | contradiction]).
   unfold check_guarded in Hc.
-  pose proof (aexec_sound n E p a0 _ _ (R0 n)) as Hs. cbn [e_mode e_force E] in Hs. rewrite Hex in Hs.
+  pose proof (aexec_sound n E p a0 _ (fun o a => is_error o && is_old (a_node a)) (R0 n)) as Hs. cbn [e_mode e_force E] in Hs. rewrite Hex in Hs.
   destruct (Hs Hc) as [a' [[_ HR] Hk]].
   apply andb_true_iff in Hk. destruct Hk as [Ho Ha].
   split.
@@ -229,7 +234,7 @@ Theorem force_replaces_node p : check_truncates p = true ->
 Proof.
   intros Hc unk n new E. unfold check_truncates in Hc. cbn [forallb] in Hc.
   apply andb_true_iff in Hc. destruct Hc as [Ht Hc]. apply andb_true_iff in Hc. destruct Hc as [Hf _].
-  pose proof (aexec_sound n E p a0 _ _ (R0 n)) as Hs. cbn [e_mode e_force E] in Hs.
+  pose proof (aexec_sound n E p a0 _ (fun o a => match o with Error => true | Normal => replacing a end) (R0 n)) as Hs. cbn [e_mode e_force E] in Hs.
   assert (Hpost : post n (fun o a => match o with Error => true | Normal => replacing a end)
                        (run p E {| s_node := n; s_h := HNone |})).
   { destruct n; cbn [exists_] in Hs; apply Hs; assumption. }
@@ -259,8 +264,8 @@ Theorem read_only_node p : check_readonly p = true ->
     snd (open_write_close p E n new) = n.
 Proof.
   intros Hc unk fo n new E. unfold check_readonly in Hc. cbn [forallb] in Hc.
-  repeat (apply andb_true_iff in Hc; destruct Hc as [? Hc]).
-  pose proof (aexec_sound n E p a0 _ _ (R0 n)) as Hs. cbn [e_mode e_force E] in Hs.
+  split_and.
+  pose proof (aexec_sound n E p a0 _ (fun _ a => is_old (a_node a) && not_writing (a_h a)) (R0 n)) as Hs. cbn [e_mode e_force E] in Hs.
   assert (Hpost : post n (fun _ a => is_old (a_node a) && not_writing (a_h a))
                        (run p E {| s_node := n; s_h := HNone |})).
   { destruct fo; destruct n; cbn [exists_] in Hs; apply Hs; assumption. }
@@ -312,6 +317,49 @@ Proof. intros q _. reflexivity. Qed.
 Lemma preserves_trans F G H : preserves_existing F G -> preserves_existing G H -> preserves_existing F H.
 Proof. intros A B q Hq. rewrite B; [apply A, Hq | rewrite A; assumption]. Qed.
 
+Lemma for_loop_preserves body base :
+  (forall c F, preserves_existing F (snd (body c F))) ->
+  forall cnt i F, preserves_existing F (snd (for_loop body base cnt i F)).
+Proof.
+  intros Hb. induction cnt as [|cnt IHc]; intros i F; cbn [for_loop].
+  - apply preserves_refl.
+  - pose proof (Hb (numbered base i) F) as H1.
+    destruct (body (numbered base i) F) as [[|] F']; cbn [snd] in *.
+    + eapply preserves_trans; [exact H1 | apply IHc].
+    + exact H1.
+Qed.
+
+Lemma for_loop_refuses body base (T : path -> list path) :
+  (forall c F, preserves_existing F (snd (body c F))) ->
+  (forall c F, fst (body c F) = Normal -> forall t, In t (T c) -> F t = None) ->
+  forall cnt i F, fst (for_loop body base cnt i F) = Normal ->
+    forall t, In t (flat_map (fun j => T (numbered base j)) (seq i cnt)) -> F t = None.
+Proof.
+  intros Hp Hb. induction cnt as [|cnt IHc]; intros i F Ho t Ht; cbn [for_loop seq flat_map] in *.
+  - contradiction.
+  - apply in_app_or in Ht.
+    pose proof (Hp (numbered base i) F) as Hpi. pose proof (Hb (numbered base i) F) as Hbi.
+    destruct (body (numbered base i) F) as [[|] F']; cbn [fst snd] in *; [|discriminate].
+    destruct Ht as [Ht|Ht].
+    + apply Hbi; [reflexivity | exact Ht].
+    + pose proof (IHc (S i) F' Ho t Ht) as Hn.
+      destruct (F t) eqn:Hft; [|reflexivity].
+      rewrite Hpi in Hn; [congruence | rewrite Hft; discriminate].
+Qed.
+
+Lemma for_loop_frame body base (T : path -> list path) q :
+  (forall c F, ~ In q (T c) -> snd (body c F) q = F q) ->
+  forall cnt i F, ~ In q (flat_map (fun j => T (numbered base j)) (seq i cnt)) ->
+    snd (for_loop body base cnt i F) q = F q.
+Proof.
+  intros Hb. induction cnt as [|cnt IHc]; intros i F Hq; cbn [for_loop seq flat_map] in *.
+  - reflexivity.
+  - pose proof (Hb (numbered base i) F) as H1.
+    destruct (body (numbered base i) F) as [[|] F']; cbn [snd] in *.
+    + rewrite IHc; [apply H1|]; intros Hin; apply Hq, in_or_app; [left | right]; assumption.
+    + apply H1. intros Hin. apply Hq, in_or_app. left. assumption.
+Qed.
+
 (* Trajectory.save_* with force_overwrite=False: every path that existed before is unchanged afterwards,
    whatever the number of frames (numbered restart files included) *)
 Theorem save_preserves_existing p : check_save p = true ->
@@ -329,12 +377,7 @@ Proof.
     rewrite Hr in Hp. exact Hp.
   - apply andb_true_iff in Hc. destruct Hc as [Ha Hb].
     destruct (Nat.eqb (se_frames E) 1); [apply IHa | apply IHb]; assumption.
-  - generalize 1 as i. revert F. induction (se_frames E) as [|cnt IHc]; intros F i.
-    + apply preserves_refl.
-    + pose proof (IH Hc E base (numbered base i) F Hf) as H1.
-      destruct (srun body E base (numbered base i) F) as [[|] F']; cbn [snd] in *.
-      * eapply preserves_trans; [exact H1 | apply IHc].
-      * exact H1.
+  - apply for_loop_preserves. intros c0 G. apply IH; assumption.
   - apply andb_true_iff in Hc. destruct Hc as [Ha Hb].
     pose proof (IHa Ha E base cur F Hf) as H1.
     destruct (srun a E base cur F) as [[|] F']; cbn [snd] in *.
@@ -360,16 +403,11 @@ Proof.
     apply (with_guarded_normal_absent c Hg (se_unk E) (F cur) (se_new E (snd cur))). rewrite Hr. reflexivity.
   - apply andb_true_iff in Hc. destruct Hc as [Ha Hb].
     destruct (Nat.eqb (se_frames E) 1); [eapply IHa | eapply IHb]; eassumption.
-  - revert F Ho t Ht. generalize 1 as i. induction (se_frames E) as [|cnt IHc]; intros i F Ho t Ht.
-    + contradiction.
-    + cbn [seq flat_map] in Ht. apply in_app_or in Ht.
-      pose proof (save_preserves_existing body Hc E base (numbered base i) F Hf) as Hp.
-      destruct (srun body E base (numbered base i) F) as [[|] F'] eqn:Hb; cbn [fst snd] in *; [|discriminate].
-      destruct Ht as [Ht|Ht].
-      * eapply (IH Hc E base (numbered base i) F Hf); [rewrite Hb; reflexivity | exact Ht].
-      * pose proof (IHc (S i) F' Ho t Ht) as Hn.
-        destruct (F t) eqn:Hft; [|reflexivity].
-        rewrite Hp in Hn; [congruence | rewrite Hft; discriminate].
+  - eapply (for_loop_refuses (fun c G => srun body E base c G) base (fun c => targets body (se_frames E) base c)).
+    + intros c0 G. apply save_preserves_existing; assumption.
+    + intros c0 G HoG t0 Ht0. eapply IH; eassumption.
+    + exact Ho.
+    + exact Ht.
   - apply andb_true_iff in Hc. destruct Hc as [Ha Hb].
     pose proof (save_preserves_existing a Ha E base cur F Hf) as Hp.
     destruct (srun a E base cur F) as [[|] F'] eqn:Hra; cbn [fst snd] in *; [|discriminate].
@@ -389,13 +427,9 @@ Proof.
   - destruct (se_unk E i); reflexivity.
   - destruct (open_write_close c _ (F cur) _) as [o n']. cbn [snd]. apply upd_other. intros ->. apply Hq. left. reflexivity.
   - destruct (Nat.eqb (se_frames E) 1); [apply IHa | apply IHb]; assumption.
-  - revert F Hq. generalize 1 as i. induction (se_frames E) as [|cnt IHc]; intros i F Hq.
-    + reflexivity.
-    + cbn [seq flat_map] in Hq.
-      pose proof (IH E base (numbered base i) F q) as H1.
-      destruct (srun body E base (numbered base i) F) as [[|] F']; cbn [snd] in *.
-      * rewrite IHc; [apply H1|]; intros Hin; apply Hq, in_or_app; [left | right]; assumption.
-      * apply H1. intros Hin. apply Hq, in_or_app. left. assumption.
+  - apply (for_loop_frame (fun c G => srun body E base c G) base (fun c => targets body (se_frames E) base c)).
+    + intros c0 G Hn. apply IH. exact Hn.
+    + exact Hq.
   - pose proof (IHa E base cur F q) as H1.
     destruct (srun a E base cur F) as [[|] F']; cbn [snd] in *.
     + rewrite IHb; [apply H1|]; intros Hin; apply Hq, in_or_app; [left | right]; assumption.
@@ -414,6 +448,18 @@ Lemma no_remnant_step E old mid final :
   no_remnant_fs E old final.
 Proof.
   intros H1 [->|H2]; [exact H1|]. right. exact H2.
+Qed.
+
+Lemma for_loop_remnant E body base q :
+  (forall c F, no_remnant_fs E (F q) (snd (body c F) q)) ->
+  forall cnt i F, no_remnant_fs E (F q) (snd (for_loop body base cnt i F) q).
+Proof.
+  intros Hb. induction cnt as [|cnt IHc]; intros i F; cbn [for_loop].
+  - left. reflexivity.
+  - pose proof (Hb (numbered base i) F) as H1.
+    destruct (body (numbered base i) F) as [[|] F']; cbn [snd] in *.
+    + eapply no_remnant_step; [exact H1 | apply IHc].
+    + exact H1.
 Qed.
 
 Theorem save_force_replaces p : check_save_truncates p = true ->
@@ -439,12 +485,7 @@ Proof.
     + left. apply upd_other. intros ->. assert (path_eqb cur cur = true) by (apply path_eqb_eq; reflexivity). congruence.
   - apply andb_true_iff in Hc. destruct Hc as [Ha Hb].
     destruct (Nat.eqb (se_frames E) 1); [apply IHa | apply IHb]; assumption.
-  - generalize 1 as i. revert F. induction (se_frames E) as [|cnt IHc]; intros F i.
-    + left. reflexivity.
-    + pose proof (IH Hc E base (numbered base i) F Hf q) as H1.
-      destruct (srun body E base (numbered base i) F) as [[|] F']; cbn [snd] in *.
-      * eapply no_remnant_step; [exact H1 | apply IHc].
-      * exact H1.
+  - apply for_loop_remnant. intros c0 G. apply IH; assumption.
   - apply andb_true_iff in Hc. destruct Hc as [Ha Hb].
     pose proof (IHa Ha E base cur F Hf q) as H1.
     destruct (srun a E base cur F) as [[|] F']; cbn [snd] in *.
